@@ -342,7 +342,7 @@ LATER = {
     "C05": " Every record is also executed on a LONG-LIVED Python emulator that has just executed, at the same address, a sibling of the instruction (same opcode and prefix, other operand bytes) - patched or reloaded code - and judged by the same clauses (impl tag pyl).",
     "C06": " Every other state is set up with the flags written once more one by one (FC, FZ after F) - the same architectural state reached through the flag aliases of either register file. Every unprefixed structure is also run with operand bytes that are all zero and all ones (a displacement, offset or immediate of exactly 0x00 / 0xFF: a length derived from the value instead of the mode bits shows only there); the same enumeration feeds C03, C04, C05, C07 and C09.",
     "C07": " The sibling history (the same bytes except the last one, executed at the same address just before) runs before the probe is ever executed on the long-lived core; the hidden-state variant also writes the flags one by one through the FC / FZ aliases. Growth: the call-stack / interrupt-flow tracer of the Python machine (spec/trace/CallTrace.tla: implementation-shaped tracer against declarative frame laws, model-checked with and without hardware interrupts) is bound to the real PCE500Emulator with tracing on and an observer registered (TraceCallTrace.tla); drift only.",
-    "C11": " The probed alias structure must also be the DOCUMENTED one: two cells of the external space may share a class only if their canonical addresses (24-bit wrap, 32 KiB mirror of 0x80000-0xBFFFF where switched on) coincide (clause UndocumentedAlias - a window folded modulo its size is coherent but still an alias). CPU-facing buses: on the whole machines (CoreRuntime::step with its RuntimeBus layer, PCE500Emulator.step) the same load/store traces are produced by EXECUTED instructions - MV A / MV BA / three-byte MVP through the internal memory, poked into RAM and stepped - and judged by the same TraceMemory clauses (impl tags rscpu, pycpu). Growth beyond the bus objects: RomLoad.tla (how the device loaders of both machines place ROM / system images of eleven palette lengths from 0 to beyond 1 MiB, which ranges they protect, the reset vector; model-checked placement function, every loader run probed at about 35 boundary addresses incl. 2^24 aliases and judged by TLC) and ImemRegs.tla (the memory-mapped internal registers of six machine variants as a state machine: keyboard, LCC/SCR, USR/SSR, IMR/ISR, E-port, SIO; TLC behaviours replayed, random sequences trace-validated). Only the C11 sentences (ROM immutable, aliases canonical, plain internal RAM reads back) are verdicts there (keys RomLoad:/ImemRegs:); Python/Rust device-register differences are reported as DRIFT.",
+    "C11": " The probed alias structure must also be the DOCUMENTED one: two cells of the external space may share a class only if their canonical addresses (24-bit wrap, 32 KiB mirror of 0x80000-0xBFFFF where switched on) coincide (clause UndocumentedAlias - a window folded modulo its size is coherent but still an alias). CPU-facing buses: on the whole machines (CoreRuntime::step with its RuntimeBus layer, PCE500Emulator.step) the same load/store traces are produced by EXECUTED instructions - MV A / MV BA / three-byte MVP through the internal memory, poked into RAM and stepped - and judged by the same TraceMemory clauses (impl tags rscpu, pycpu). Growth beyond the bus objects: RomLoad.tla (how the device loaders of both machines place ROM / system images of eleven palette lengths from 0 to beyond 1 MiB, which ranges they protect, the reset vector; model-checked placement function, every loader run probed at about 35 boundary addresses incl. 2^24 aliases and judged by TLC) and ImemRegs.tla (the memory-mapped internal registers of six machine variants as a state machine: keyboard, LCC/SCR, USR/SSR, IMR/ISR, E-port, SIO; TLC behaviours replayed, random sequences trace-validated). Uart.tla (the serial adapter behind USR / RXD / TXD as its own state machine: queues with per-byte error flags, status bits, snapshot / restore; seven laws model-checked over 935 k states, one refuted on purpose - a pristine adapter reports its transmitter neither ready nor empty - and the real SerialAdapter trace-validated; drift only). Only the C11 sentences (ROM immutable, aliases canonical, plain internal RAM reads back) are verdicts there (keys RomLoad:/ImemRegs:); Python/Rust device-register differences are reported as DRIFT.",
     "C12": " PromptAfterUnmask carries the origin of the owed request (monitors: line at which each status bit last rose, line of the latest delivery): a request raised by a NEW event after the latest delivery (key pressed / other timer expiring while a handler runs; dedicated scripts) must be taken (tag fresh-request), only the stale shape is a recorded finding. Liveness: on the finite instance of Interrupts.tla (positions modulo 2, no depth bound, no state constraint) TLC checks under weak fairness of the CPU that a halted CPU with a pending status bit resumes (HaltWakes), a powered-off one with the ON key pending resumes with its timers running (OffWakes) and an owed request is served unless the firmware acknowledges or masks it first (RequestServed), for both delivery phases and both acknowledge readings. 'A powered-off CPU stops both timers' is judged on whole-machine runs (schedules of Machine.tla plus OFF scripts with both timers live, 0-40 idle steps, ON key) by the OffFreezes clause of TraceMachineTimers.tla: over a step that begins and ends powered off the remaining count of each live timer is unchanged. Every fourth script also runs on the Python machine's minimal stepping path (fast_mode) and on one constructed with tracing switched on.",
     "C13": " Machine level: OffFreezes (a step that begins and ends powered off leaves the remaining count of each live timer unchanged and raises no timer status bit) joins the cadence clauses; every third script also runs on the Python machine's minimal stepping path (fast_mode, where WAIT is simulated by a separate routine) and on one constructed with tracing switched on.",
     "C15": " On alternate steps the Python controller is observed through its snapshot API (get_snapshot(): registers and VRAM as the state capture and save path see them) instead of the chip objects; both views are judged by the same trace clauses. Every other sequence also runs on a Rust controller whose display-write capture is switched on (an observer used by the front ends; the protocol must not notice it).",
